@@ -350,9 +350,14 @@ for n in ["u29_get_searches_current_then_every_queued_index", "u29_get_size_is_t
     M_COLUMN.harnesses.append(H(n, "U29", kind="bounded", shape="HashColumn::%s with an 18-bit current index and two queued older indexes; get_in_index by contract" % ("get_size" if "size" in n else "get"),
                                 bound="two queued old indexes; HashColumn::get_in_index by contract (U13)"))
 
+M_OPTIONS = KModule("options", "src/options.rs", "verif_options", "options.rs")
+for n in ["u35_metadata_1_1", "u35_metadata_2_2", "u35_metadata_1_2", "u35_metadata_2_1"]:
+    M_OPTIONS.harnesses.append(H(n, "U35", kind="bounded", shape="Options::load_and_validate_metadata, requested/stored column counts %s/%s, all flags arbitrary" % (n[-3], n[-1]),
+                                 bound="at most 2 columns; Options::{load_metadata,write_metadata} by contract; a salt is given"))
+M_OPTIONS.harnesses.append(H("u35_column_flag_validity", "U35", shape="ColumnOptions::is_valid over all flag combinations"))
 # units whose harnesses call the real code without recorder / contract stubs: Kani's counterexample replays natively
 NATIVE_REPLAY_UNITS = {"U1", "U2", "U4", "U5", "U7", "U11"}
-KMODULES = {"index": M_INDEX, "table": M_TABLE, "log": M_LOG, "column": M_COLUMN, "ref_count": M_REFCOUNT, "btree_node": M_BTNODE, "btree_mod": M_BTMOD, "db": M_DB, "btree_tree": M_BTTREE}
+KMODULES = {"index": M_INDEX, "table": M_TABLE, "log": M_LOG, "column": M_COLUMN, "ref_count": M_REFCOUNT, "btree_node": M_BTNODE, "btree_mod": M_BTMOD, "db": M_DB, "btree_tree": M_BTTREE, "options": M_OPTIONS}
 
 
 def kmodule_of_unit(unit):
@@ -452,7 +457,7 @@ PROPS["C10"] = {
 
 PROPS["C08"] = {
     "kani_units": [],
-    "verus_units": ["overlay_publish"],
+    "verus_units": ["overlay_publish", "commit_publish"],
     "syntactic": ["commit_raw_checks_before_publish", "claim_tree_values_checks_before_claim", "commit_changes_claims_nothing_before_validation"],
     "level": "other",
     "technique": "Verus contracts on the real validation (check) and publication (copy_to_overlay) functions of both change-set kinds, extracted from /repo on every run",
@@ -518,6 +523,13 @@ UNIT_META = {
     "U32": {"functions": ["log::Log::flush_one"], "assumes": ["std::fs::File::sync_data replaced by its contract (recorder)", "the File is a raw descriptor never used for I/O; the write buffer is empty (BufWriter::into_inner performs no write)", "only the successful-sync path is exercised"]},
     "U34": {"functions": ["db::DbInner::store_err", "db::DbInner::commit_raw (background-error gate)", "db::DbInner::kill_logs (background-error path)"],
             "assumes": ["commit_raw is exercised with an empty transaction (non-empty std HashMaps cannot be built under CBMC)", "stage functions of kill_logs by contract (as U33)"]},
+    "U35": {"functions": ["options::Options::load_and_validate_metadata", "options::ColumnOptions::is_valid", "options::ColumnOptions (derived equality)"],
+            "assumes": ["Options::load_metadata (read and parse the metadata file) and Options::write_metadata replaced by contracts", "a salt is given in the options (the random salt of a fresh database is outside the harness)", "error text (format!) stubbed"]},
+    "commit_publish": {"functions": ["db::DbInner::commit_raw (validate-then-publish block: from the first validation loop to the construction of the queue entry; fragment)"],
+                       "assumes": ["the lock guards `queue` / `overlay` of the real function become &mut parameters of a hand-written wrapper (rule R8); loops get iterator names and `&map` becomes `map.iter()` (listed rewrites)",
+                                   "IndexedChangeSet / BTreeChangeSet::{check, copy_to_overlay} carry the contracts proved by unit overlay_publish (check accepts exactly valid change sets; copy_to_overlay cannot fail on a valid one); the byte-counter preconditions of copy_to_overlay are assumed",
+                                   "every column id named by the transaction indexes the overlay vector (precondition; commit_changes indexes options.columns with the same ids)",
+                                   "statements of commit_raw before the first validation loop (queue-full wait, background-error gate: U34) are outside the fragment"]},
     "U31": {"functions": ["db::DbInner::{clean_logs,clean_all_logs}"], "assumes": ["Column::flush (msync / fsync of every table of the column), Log::num_dirty_logs and Log::clean_logs (truncate and recycle log files) replaced by contracts (recorders)"]},
     "U33": {"functions": ["db::DbInner::kill_logs"], "assumes": ["DbInner::{process_commits,flush_logs,enact_logs,clean_all_logs} and Log::kill_logs replaced by contracts over ghost stage counters: process_commits moves one queued commit into the appending log, flush_logs makes the appending log readable, enact_logs applies one readable record, each reporting whether it did anything"]},
     "U29": {"functions": ["column::HashColumn::{get,get_size}"], "assumes": ["HashColumn::get_in_index replaced by its contract (proved against its own callees by Verus, unit lookup_chain)"]},
@@ -683,3 +695,16 @@ PROPS["C16"] = {
     "does_not_cover": ["which operations fail and that each failure is propagated to store_err (error paths through `?`)", "reads after a failure", "state after reopen (prefix of commits)", "no panic on I/O errors"],
 }
 PROPS["C08"]["kani_units"] = ["U34"]
+
+PROPS["C07"]["kani_units"] = ["U8d", "U17", "U15", "U24"]
+PROPS["C17"] = {
+    "kani_units": ["U35"],
+    "verus_units": [],
+    "level": "other",
+    "technique": "Kani/CBMC contract on the real metadata validation (Options::load_and_validate_metadata) with the file reader/writer replaced by contracts; complete check of the column flag rules",
+    "claim": "Only the option-check clauses, at the function that implements them: for every combination of the eight per-column flags and up to two columns, load_and_validate_metadata accepts stored metadata exactly when the column count and every flag of every column agree with the requested options, reports a count mismatch and a flag mismatch as configuration errors, never rewrites the metadata of an existing database whatever the outcome, reports a missing database without creating anything unless creation was requested, and on creation writes metadata describing exactly the requested columns once. ColumnOptions::is_valid rejects exactly the three documented flag conflicts (complete). That no other database file is touched before this check, the textual round trip of the metadata file, and add / drop / reset / clear column are not decided.",
+    "level_note": "Options::load_metadata (BufReader<File>, str parsing) and write_metadata (format!, fs::write) are contracts; DbInner::open creates the directory / lock file before this function runs (not under contract). Column administration functions work on directory listings and whole files and are out of reach.",
+    "trusted_base": TB,
+    "explanation": "Bounded in the number of columns (<= 2), complete over all flag combinations for those; level 'other' because only one function of the property is decided.",
+    "does_not_cover": ["metadata file round trip (as_string / from_string)", "files touched by DbInner::open before validation (directory, lock file)", "add_column, drop_last_column, reset_column, clear_column"],
+}
